@@ -127,6 +127,70 @@ def type_grid(c):
                                   f"{kind} type with {'no' if lb is None else 'a'} lower and {'no' if ub is None else 'a'} upper bound")
 
 
+def metrics_grid(c):
+    """every quality-metric class, with the corner cases of their payloads: action costs with no default / a default equal to an explicit cost
+    (same and different numeric kind) / a default used by an action without explicit cost, int and rational values; weighted goals"""
+    from unified_planning.shortcuts import (MinimizeActionCosts, MinimizeSequentialPlanLength, MinimizeMakespan, MinimizeExpressionOnFinalState,
+                                            MaximizeExpressionOnFinalState, Oversubscription, TemporalOversubscription, Int, Real)
+
+    def base(temporal=False):
+        pr = Problem("metrics")
+        x, q = Fluent("x", IntType(0, 9)), Fluent("q", BoolType())
+        pr.add_fluent(x, default_initial_value=0)
+        pr.add_fluent(q, default_initial_value=False)
+        acts = []
+        for nm in ("a", "b", "c"):
+            if temporal:
+                a = DurativeAction(nm)
+                a.set_fixed_duration(2)
+                a.add_effect(EndTiming(), q, True)
+            else:
+                a = InstantaneousAction(nm)
+                a.add_effect(q, True)
+            pr.add_action(a)
+            acts.append(a)
+        pr.add_goal(q)
+        return pr, x, q, acts
+    cases = []
+    for dname, default in (("no default", None), ("int default", Int(2)), ("real default", Real(Fraction(5, 2)))):
+        for cname, costs in (("all explicit, one equal to the default", lambda a, d: {a[0]: Int(3), a[1]: (d if d is not None else Int(2)), a[2]: Int(0)}),
+                             ("one action left to the default", lambda a, d: {a[0]: Int(3), a[1]: Real(Fraction(7, 3))}),
+                             ("explicit cost equal in value but of the other numeric kind", lambda a, d: {a[0]: Real(Fraction(2)), a[1]: Int(2), a[2]: Real(Fraction(5, 2))}),
+                             ("fluent-valued cost", lambda a, d: {a[0]: None, a[1]: Int(1), a[2]: Int(1)})):
+            pr, x, q, acts = base()
+            cs = costs(acts, default)
+            cs = {k: (x() if v is None else v) for k, v in cs.items()}
+            try:
+                pr.add_quality_metric(MinimizeActionCosts(cs, default))
+            except Exception:  # noqa
+                continue
+            cases.append((f"MinimizeActionCosts, {dname}, {cname}", pr))
+    pr, x, q, acts = base()
+    pr.add_quality_metric(MinimizeSequentialPlanLength())
+    cases.append(("MinimizeSequentialPlanLength", pr))
+    pr, x, q, acts = base(temporal=True)
+    pr.add_quality_metric(MinimizeMakespan())
+    cases.append(("MinimizeMakespan", pr))
+    for M in (MinimizeExpressionOnFinalState, MaximizeExpressionOnFinalState):
+        pr, x, q, acts = base()
+        pr.add_quality_metric(M(Plus(x, 3)))
+        cases.append((M.__name__, pr))
+    for wname, weights in (("int weights", (1, 5)), ("rational weights", (Fraction(1, 3), Fraction(10 ** 12, 7))), ("equal weights", (2, 2))):
+        pr, x, q, acts = base()
+        pr.add_quality_metric(Oversubscription({q(): weights[0], GE(x, 1): weights[1]}))
+        cases.append((f"Oversubscription, {wname}", pr))
+        pr, x, q, acts = base(temporal=True)
+        try:
+            pr.add_quality_metric(TemporalOversubscription({(ClosedTimeInterval(GlobalStartTiming(1), GlobalStartTiming(4)), q()): weights[0],
+                                                            (GlobalStartTiming(5), GE(x, 1)): weights[1]}))
+            cases.append((f"TemporalOversubscription, {wname}", pr))
+        except Exception:  # noqa
+            pass
+    for nm, pr in cases:
+        c.nontrivial.add(("metric", nm))
+        roundtrip_problem(c, pr, {"metric": nm}, f"quality metric [{nm}]")
+
+
 def constants_and_timings(c):
     T = UserType("T")
     for k in CONSTS:
@@ -344,6 +408,7 @@ def bounded(tier, seed):
         warnings.simplefilter("ignore")
         type_grid(c)
         constants_and_timings(c)
+        metrics_grid(c)
         try:
             from unified_planning.test.examples import get_example_problems
             for name, ex in get_example_problems().items():
@@ -374,7 +439,7 @@ def bounded(tier, seed):
             if len(c.failures) >= 12:
                 break
     return {"evaluations": c.evals, "distinct_nontrivial": len(c.nontrivial), "failures": c.failures,
-            "rule": f"exhaustive type-bound grid ({len(INT_BOUNDS)}^2 int + {len(REAL_BOUNDS)}^2 real), {len(CONSTS)} rational constants, every timepoint kind x 5 delays x 5 interval "
+            "rule": f"every quality-metric class with default / explicit / equal-valued costs and weights; exhaustive type-bound grid ({len(INT_BOUNDS)}^2 int + {len(REAL_BOUNDS)}^2 real), {len(CONSTS)} rational constants, every timepoint kind x 5 delays x 5 interval "
                     f"forms, 5 duration-interval forms, example corpus, {n} seeds x 5 generators with plans/results; evaluation = one object written, "
                     f"serialised, parsed, read and compared; writer rejections skipped: {c.skipped}",
             "samples": [{"writer_rejections_skipped": c.skipped}], "bound": f"{n} seeds + grids", "skipped": c.skipped}
@@ -387,6 +452,8 @@ def replay_file(data):
         warnings.simplefilter("ignore")
         if "grid" in cc:
             type_grid(c)
+        elif "metric" in cc:
+            metrics_grid(c)
         elif "constant" in cc or "timepoint" in cc or "duration_interval" in cc:
             constants_and_timings(c)
         elif "source" in cc:
